@@ -15,6 +15,7 @@ CLAIMED.update({
  "C13": ("must-hold lockset dataflow with caller-holds helpers + shape-based interval reasoning on every store to refillRate/tokens + guard dominance and must-pass rules on the penalty arm + expression-shape check of the penalty formula", _T, "DESIGN.md §3 C13"),
  "C17": ("atomic-discipline scan over every access to the counter fields + who-may-write on rate.total + lockset dataflow on the per-key map with same-critical-section rule + Incr/defer-Decr pairing + must-pass event rules", _T, "DESIGN.md §3 C17"),
  "C18": ("data-dependence analysis of checkThreshold (single comparison on free, threshold independent of free) + exact-constant shape check of the three threshold cases + guard/must-pass rules on the watcher's pause/resume branches", _T, "DESIGN.md §3 C18"),
+ "C16": ("acquire/release must-pass path rules (response bodies, spooled files, goroutine join, ticker stop) + guarded-insertion rule on the limiter table + reactor entry/token pairing", _T, "DESIGN.md §3 C16"),
 })
 _P = "check not built yet in this round; planned rules in DESIGN.md §3 — not claimed until the rule runs"
 NOT_APPLICABLE = {f"C{i:02d}": _P for i in range(1, 20)}
